@@ -28,6 +28,7 @@ type gateInfo struct {
 	op       string     // op constant passed to Handle
 	handle   *ssa.Call
 	contentT types.Type
+	shared   bool // a chain function shared by the gate methods (list and op are its parameters)
 }
 
 func runC15(c *engine.Ctx) {
@@ -109,6 +110,7 @@ func runC15(c *engine.Ctx) {
 	// ---- R1 the five gate loops ----
 	c.Rule("R1", "each gate method ranges over the list registered for the op it passes to Handle; error ⇒ non-nil return; Reject ⇒ non-nil return; !Unchange ⇒ content replaced by the returned content; the loop ends only by exhausting the list")
 	var gates []*gateInfo
+	sharedChains := map[*ssa.Function]bool{}
 	for i := 0; i < mgr.NumMethods(); i++ {
 		m := mgr.Method(i)
 		f := p.FuncOf(m)
@@ -116,10 +118,53 @@ func runC15(c *engine.Ctx) {
 			continue
 		}
 		calls := engine.CallsTo(f, handleObj)
+		sig := m.Type().(*types.Signature)
+		if len(calls) == 0 && sig.Results().Len() == 2 {
+			// the gate may delegate to a chain function shared by all gates (possibly generic): the method must hand it
+			// its own list and the op that list is registered under; the shared loop is checked once
+			for _, cc := range chainCalls(f, handleObj) {
+				chain := engine.CalleeFn(cc)
+				if o := chain.Origin(); o != nil {
+					chain = o
+				}
+				name := "pkg/plugin/server.Manager." + m.Name()
+				var lf *types.Var
+				op := ""
+				for _, a := range engine.CallArgs(cc) {
+					if fv, _ := engine.LoadedField(a); fv != nil && listOp[fv] != "" {
+						lf = fv
+					}
+					if s, ok := engine.ConstString(a); ok && op == "" {
+						op = s
+					}
+				}
+				want := ""
+				if lf != nil {
+					want = listOp[lf]
+				}
+				c.Check(lf != nil && op != "" && op == want, name+">list-op", cc.Pos(), 3, []string{fmt.Sprintf("delegates to %s with op %q", p.FuncName(chain), op)},
+					"the gate hands the shared chain its own list, which Register fills under the op %q it passes", op)
+				gd := &gateInfo{name: name, fn: f, op: op, list: lf}
+				gates = append(gates, gd)
+				if !sharedChains[chain] && len(engine.CallsTo(chain, handleObj)) == 1 {
+					sharedChains[chain] = true
+					hc, _ := engine.CallsTo(chain, handleObj)[0].(*ssa.Call)
+					if hc != nil && len(chain.Params) >= 3 {
+						var ct types.Type
+						for _, pr := range chain.Params {
+							if _, isPtr := pr.Type().Underlying().(*types.Pointer); isPtr {
+								ct = pr.Type()
+							}
+						}
+						checkGate(c, &gateInfo{name: "pkg/plugin/server." + chain.Name(), fn: chain, handle: hc, contentT: ct, shared: true}, listOp, rejectF, unchangeF)
+					}
+				}
+			}
+			continue
+		}
 		if len(calls) == 0 {
 			continue
 		}
-		sig := m.Type().(*types.Signature)
 		if sig.Results().Len() != 2 {
 			continue // CloseProxy: notification, not a gate
 		}
@@ -641,17 +686,34 @@ func checkGate(c *engine.Ctx, g *gateInfo, listOp map[*types.Var]string, rejectF
 			}
 		}
 	}
-	if listField == nil {
-		c.Undecide(g.name+">list", call.Pos(), "cannot identify the plugin list the loop ranges over")
-		return
+	if g.shared {
+		// a chain function shared by the gates: it ranges over the list it is given and passes on the op it is given
+		okShape := false
+		if u, ok := recv.(*ssa.UnOp); ok {
+			if ia, ok := u.X.(*ssa.IndexAddr); ok {
+				if _, isP := ia.X.(*ssa.Parameter); isP {
+					okShape = true
+				}
+			}
+		}
+		_, opIsParam := args[2].(*ssa.Parameter)
+		c.Check(okShape && opIsParam, g.name+">list-op", call.Pos(), 2, nil, "the shared chain ranges over the whole list parameter and hands its op parameter to Handle")
+		if !okShape {
+			return
+		}
+	} else {
+		if listField == nil {
+			c.Undecide(g.name+">list", call.Pos(), "cannot identify the plugin list the loop ranges over")
+			return
+		}
+		g.list = listField
+		op, _ := engine.ConstString(args[2])
+		g.op = op
+		want, registered := listOp[listField]
+		c.Check(registered && whole && op != "" && op == want, g.name+">list-op", call.Pos(), 3,
+			[]string{"ranges over " + listField.Name(), fmt.Sprintf("Handle op %q", op), fmt.Sprintf("list registered under op %q", want)},
+			"the loop ranges over the whole list %s, which Register fills under the op %q passed to Handle", listField.Name(), op)
 	}
-	g.list = listField
-	op, _ := engine.ConstString(args[2])
-	g.op = op
-	want, registered := listOp[listField]
-	c.Check(registered && whole && op != "" && op == want, g.name+">list-op", call.Pos(), 3,
-		[]string{"ranges over " + listField.Name(), fmt.Sprintf("Handle op %q", op), fmt.Sprintf("list registered under op %q", want)},
-		"the loop ranges over the whole list %s, which Register fills under the op %q passed to Handle", listField.Name(), op)
 
 	// the content passed is the threaded content
 	// loop header: innermost block with a back edge that dominates the call
@@ -865,7 +927,7 @@ func checkOwnList(c *engine.Ctx, mgr *types.Named, handleObj *types.Func) {
 	for i := 0; i < mgr.NumMethods(); i++ {
 		m := mgr.Method(i)
 		f := p.FuncOf(m)
-		if f == nil || len(engine.CallsToVia(f, handleObj)) == 0 {
+		if f == nil || (len(engine.CallsToVia(f, handleObj)) == 0 && len(chainCalls(f, handleObj)) == 0) {
 			continue
 		}
 		seen := map[string]bool{}
@@ -1003,4 +1065,30 @@ func checkAllPluginsRegistered(c *engine.Ctx) {
 		}
 	}
 	c.Floor(n, 1)
+}
+
+// chainCalls: the calls of f to a same-package function (or an instance of a generic one) whose body calls target.
+func chainCalls(f *ssa.Function, target *types.Func) []ssa.CallInstruction {
+	var out []ssa.CallInstruction
+	engine.ForEachInstr(f, func(in ssa.Instruction) {
+		call, ok := in.(ssa.CallInstruction)
+		if !ok {
+			return
+		}
+		cf := engine.CalleeFn(call)
+		if cf == nil {
+			return
+		}
+		body := cf
+		if o := cf.Origin(); o != nil {
+			body = o
+		}
+		if body.Pkg != f.Pkg || body.Blocks == nil {
+			return
+		}
+		if len(engine.CallsTo(body, target)) > 0 {
+			out = append(out, call)
+		}
+	})
+	return out
 }
